@@ -45,6 +45,46 @@ func (p *Prog) Index() *Index {
 	for _, fn := range p.Funcs {
 		ix.Info[fn] = ix.scan(fn)
 	}
+	// a helper that stores through a pointer parameter writes, on behalf of its caller, the field
+	// whose address the caller passes (locate(seats, &sm.bb)): book that write at the call site
+	paramStore := map[*ssa.Function]map[int]bool{}
+	for _, fn := range p.Funcs {
+		for _, b := range fn.Blocks {
+			for _, in := range b.Instrs {
+				if st, ok := in.(*ssa.Store); ok {
+					if prm, ok := st.Addr.(*ssa.Parameter); ok {
+						for i, q := range fn.Params {
+							if q == prm {
+								if paramStore[fn] == nil {
+									paramStore[fn] = map[int]bool{}
+								}
+								paramStore[fn][i] = true
+							}
+						}
+					}
+				}
+			}
+		}
+	}
+	if len(paramStore) > 0 {
+		for _, fi := range ix.Info {
+			for _, ci := range fi.CallIns {
+				f := ci.Common().StaticCallee()
+				if f == nil || paramStore[f] == nil {
+					continue
+				}
+				for i, a := range ci.Common().Args {
+					if !paramStore[f][i] {
+						continue
+					}
+					if fa, ok := a.(*ssa.FieldAddr); ok {
+						cls, fresh := rootOf(fa)
+						fi.Writes = append(fi.Writes, Access{Key: fieldKeyOf(fa.X, fa.Field), Instr: ci, Root: cls, Fresh: fresh})
+					}
+				}
+			}
+		}
+	}
 	// transitive closure (simple fixpoint; the module is small)
 	for _, fi := range ix.Info {
 		fi.TWrites = map[string]bool{}
